@@ -16,6 +16,17 @@ def is_final(d, e):
     return any(CACHE_FN + "(" in o for o in d.origins(e)) or CACHE_FN + "(" in U(e)
 
 
+def derived_from_final(d, e):
+    """the path expression is computed from (but is not) a get_precalc_cache(...) result"""
+    e2 = d.inline(e)
+    for n in ast.walk(e2):
+        if isinstance(n, ast.Call) and U(n.func).endswith(CACHE_FN):
+            return True
+        if isinstance(n, ast.Name) and is_final(d, n):
+            return True
+    return False
+
+
 def tmp_origin(d, e):
     """the mkstemp/NamedTemporaryFile call a path or fd originates from, else None"""
     for o in d.origins(e):
@@ -123,6 +134,10 @@ def run(repo, res):
             elif tmp_origin(d, path) and (any(is_final(d, x) for x in _replace_targets(nodes)) or any(isinstance(x, ast.Call) and U(x.func).endswith(CACHE_FN) for x in nodes)):
                 n_writes += 1
                 publishes.append((f, n, path, d, nodes, withs.get(U(target))))
+            elif derived_from_final(d, path):
+                # a name computed from the final path (filename + ".tmp", f"{filename}.part"): every writer uses the same one
+                n_writes += 1
+                res.bad("R36.1", f"{mname}.{q} temporary file is unique to the writer", f"`{U(n)[:70]}` writes to `{U(d.inline(path))[:80]}`{via}, a fixed name derived from the cache path: two processes filling the cache at the same time share it, so one can truncate the file the other is about to publish with os.replace -- readers then load a partial table; use tempfile.mkstemp(dir=...)", repo.loc(f, n))
     # the publish protocol for each temp-file write
     for f, w, path, d, nodes, opened in publishes:
         name = f"{f._mod}.{f._qual}"
@@ -164,7 +179,18 @@ def run(repo, res):
             same = all(U(x.value) == U(arr) for x in rets)
             rebound = isinstance(arr, ast.Name) and len([v for v in d.values(arr.id)]) > 1
             res.require(same and not rebound, "R36.3", f"{name} returns the array it wrote", f"writes `{U(arr)}` but returns `{U(rets[-1].value)}`" + (" (rebound)" if rebound else ""), repo.loc(f, rets[-1]), U(arr))
-        lossless_format(res, "R36.4", repo, f, w, name)
+    # R36.4: every text writer in a function that handles the cache path
+    n_fmt = 0
+    for mname, q, f in repo.all_funcs():
+        nodes = list(own_nodes(f))
+        if not any(isinstance(x, ast.Call) and U(x.func).endswith(CACHE_FN) for x in nodes):
+            continue
+        for w in nodes:
+            if isinstance(w, ast.Call) and U(w.func) in WRITERS:
+                n_fmt += 1
+                lossless_format(res, "R36.4", repo, f, w, f"{mname}.{q}")
+    if n_fmt == 0:
+        raise AnalysisError("R36.4: no writer of the prior cache found (anchor vanished)")
     if n_writes == 0:
         raise AnalysisError("R36.1: no write of the prior cache found (anchor vanished)")
     res.count("cache_write_sites", n_writes)
@@ -214,6 +240,7 @@ _OLD_WRITE = '''        filename = self.get_precalc_cache(n)
         return prior_lookup_table
 '''
 VARIANTS = [
+    dict(name="predictable-temporary", mod="prior", expect="fire", rule="R36.1", old="        fd, tmp_filename = tempfile.mkstemp(dir=os.path.dirname(filename), suffix=\".tmp\")\n        try:\n            with os.fdopen(fd, \"w\") as f:", new="        tmp_filename = filename + \".tmp\"\n        try:\n            with open(tmp_filename, \"w\") as f:"),
     dict(name="cache-rounded-on-write", mod="prior", expect="fire", rule="R36.4", old="                np.savetxt(f, prior_lookup_table)\n", new="                np.savetxt(f, prior_lookup_table, fmt=\"%.9g\")\n"),
     dict(name="twin-cache-explicit-full-precision", mod="prior", expect="silent", old="                np.savetxt(f, prior_lookup_table)\n", new="                np.savetxt(f, prior_lookup_table, fmt=\"%.17e\")\n"),
     dict(name="direct-savetxt", mod="prior", expect="fire", rule="R36.1", old=_OLD_WRITE,
